@@ -294,6 +294,9 @@ impl Model {
     /// told `Changed` ends the observer's life, so its siblings later in that order get nothing in this round.
     pub fn apply_self_disallow(&mut self, out: &mut RoundOut, asc: bool) {
         for slot in 0..self.obs.len() as u8 {
+            if self.obs[slot as usize].pinned {
+                continue;
+            }
             let mut subs: Vec<u8> = (0..self.subs.len() as u8).filter(|i| self.subs[*i as usize].slot == slot).collect();
             if !asc {
                 subs.reverse();
